@@ -179,6 +179,7 @@ PROPS["C15"] = {
 PROPS["C02"]["runs"] += [{"name": "rsgen-trk", "src": "h_enc.c", "variant": "trk", "args": ["--mode", "rs"]}]
 for _p in ("C01", "C02", "C10"):
     PROPS[_p]["runs"] += [{"name": "enc-then-dec-one-session-trk", "src": "h_enc.c", "variant": "trk", "args": ["--mode", "both"]}]
+PROPS["C03"]["runs"] += [{"name": "enc-then-dec-one-session-trk", "src": "h_enc.c", "variant": "trk", "args": ["--mode", "both"]}]
 PROPS["C08"]["runs"] += [{"name": "enc-then-dec-one-session-trk", "src": "h_enc.c", "variant": "trk", "args": ["--mode", "both"]},
                          {"name": "enc-rs-trk", "src": "h_enc.c", "variant": "trk", "args": ["--mode", "rs"]},
                          {"name": "enc-ldpc-trk", "src": "h_enc.c", "variant": "trk", "args": ["--mode", "ldpc"]}]
